@@ -129,6 +129,19 @@ ADDED['C13'] += ' A failed index load ends in clear() + successful regeneration 
 ADDED['C09'] += ' The reused buffer of the on-disk walks is resized before every exact read.'
 ADDED['C17'] += ' Metadata equality is decided on decoded maps, never on stored bytes.'
 
+ADDED['C09'] += ' A completely filled non-leaf node fits into one block for every key length (fan-out and node-size formulas evaluated to polynomials, the division eliminated with q*D <= X); no function of the index code re-sorts a vector of record headers.'
+ADDED['C03'] += ' A full inner node of the index file fits the block the lookups read (polynomial proof).'
+ADDED['C04'] += ' A full inner node fits one block; the index of a restored blob is loaded and the blob popped through the same list guard.'
+ADDED['C02'] += ' read_all strips exactly the trailing marker; Deleted is answered by the meta lookup only after the versions in front of the marker were searched.'
+ADDED['C05'] += ' Every deletion record of a multi-blob delete carries a copy of the caller\'s metadata map.'
+ADDED['C06'] += ' The io read wrappers refuse a read only when the requested range (offset and length) does not fit the file.'
+ADDED['C10'] += ' CombinedFilter reports `merged` only after every component was merged; a range filter restored from bytes is the deserialised one or an error.'
+ADDED['C13'] += ' Every successful initialisation has launched the maintenance worker.'
+ADDED['C14'] += ' No two fields of a value held under one exclusive guard are written on the two sides of a suspension point in a client-cancellable body.'
+ADDED['C15'] += ' The gauges never answer from try-locks.'
+ADDED['C16'] += ' Every header preprocessor of recovery / migration builds the output header from the input header.'
+ADDED['C17'] += ' The io read wrappers refuse only unsatisfiable ranges.'
+
 for _k, _v in ADDED.items():
     _t = CHECKS[_k]
     CHECKS[_k] = (_t[0] + _v, _t[1], _t[2])
